@@ -2,6 +2,7 @@ package main
 
 import (
 	"bytes"
+	"math"
 	"errors"
 	"fmt"
 	"io"
@@ -225,6 +226,10 @@ func c19diff(c *Ctx) {
 				return pb.Cap() - pb.Len()
 			case 6:
 				return pb.Cap() - pb.Len() + 1
+			case 7:
+				if r.P(25) { // sizes at the edge of the integer range (sums with the read offset wrap)
+					return gen.Pick(r, []int{math.MaxInt, math.MaxInt - 1, math.MaxInt - pb.Len(), math.MaxInt/2 + 1, math.MinInt, math.MinInt + 1})
+				}
 			}
 			return gen.Pick(r, c19sizes)
 		}
